@@ -66,6 +66,8 @@ pub struct Frame<'tcx> {
     pub body: &'tcx Body<'tcx>,
     pub locals: Vec<usize>,
     pub bb: BasicBlock,
+    /// statements of `bb` already executed (a fork in the middle of a block resumes after the forking statement)
+    pub skip: usize,
     pub ret_to: Option<(Ptr<'tcx>, Option<BasicBlock>)>,
 }
 #[derive(Clone)]
@@ -594,6 +596,9 @@ impl<'tcx> Cx<'tcx> {
                 if let Some(q) = self.sub_object_of_view(st, &p, inner) {
                     return Ok(q);
                 }
+                if let Some(q) = self.wider_view(st, &p, inner) {
+                    return Ok(q);
+                }
                 return Err(format!("bad view: {:?} as larger {:?}", cur, inner));
             }
             if self.leaf_count(cur) == self.leaf_count(inner) {
@@ -666,27 +671,27 @@ impl<'tcx> Cx<'tcx> {
         Ok(r)
     }
 
-    /// A pointer equal to `p` whose last step is an index into an array (or array view) of the pointee type.
-    fn as_elem_ptr(&self, st: &State<'tcx>, p: &Ptr<'tcx>) -> R<Ptr<'tcx>> {
-        let pointee = self.ptr_ty(st, p)?;
-        // already an element of an array of the pointee type?
-        if let Some(last) = p.segs.last() {
-            if let Some(PE::F(_)) = last.path.last() {
-                let mut parent = p.clone();
-                parent.segs.last_mut().unwrap().path.pop();
-                if let Ok(pt) = self.ptr_ty(st, &parent) {
-                    if matches!(pt.kind(), ty::Array(e, _) if *e == pointee) {
-                        return Ok(p.clone());
-                    }
-                }
+    /// Enclosing objects of the pointee, innermost first: every prefix of the access path, as long as the layout of the enclosing type
+    /// is defined by the language (arrays, `repr(C)` / `repr(transparent)` structs, unions represented by their canonical field, and
+    /// the synthetic tuple views made by `wider_view`).
+    fn flat_candidates(&self, st: &State<'tcx>, p: &Ptr<'tcx>) -> Vec<Ptr<'tcx>> {
+        let flat_layout = |t: Ty<'tcx>, synthetic: bool| -> bool {
+            match t.kind() {
+                ty::Array(..) => true,
+                ty::Adt(d, _) => d.is_struct() && (d.repr().c() || d.repr().transparent()) || d.is_union(),
+                ty::Tuple(_) => synthetic,
+                _ => self.field_tys(t).is_none(),
             }
-        }
-        // re-express inside the object the last segment ranges over
+        };
         let mut base = p.clone();
+        base.win = None;
         let mut candidates = vec![];
-        // candidate enclosing objects: every prefix of the last segment's path, and the cell itself
         loop {
-            candidates.push(base.clone());
+            let synthetic = base.segs.last().map(|s| s.view.is_some() && s.path.is_empty()).unwrap_or(false);
+            match self.ptr_ty(st, &base) {
+                Ok(t) if flat_layout(t, synthetic) => candidates.push(base.clone()),
+                _ => break,
+            }
             let last = base.segs.last_mut().unwrap();
             if last.path.pop().is_none() {
                 if base.segs.len() > 1 {
@@ -696,6 +701,45 @@ impl<'tcx> Cx<'tcx> {
                 }
             }
         }
+        candidates
+    }
+
+    /// `p as *const W` where W has more scalars than the pointee (`v3_as_array.as_ptr() as *const Vector2<S>`): inside the largest
+    /// enclosing object whose scalars all have W's scalar type, the pointer designates the scalars [off, off + k) seen as a W.
+    /// The object is viewed as the tuple (scalar x off, W, scalar x rest) - a type with the same scalars in the same order.
+    fn wider_view(&self, st: &State<'tcx>, p: &Ptr<'tcx>, want: Ty<'tcx>) -> Option<Ptr<'tcx>> {
+        if p.win.is_some() {
+            return None;
+        }
+        let leaf = self.uniform_leaf(want)?;
+        let k = self.leaf_count(want);
+        let off_p = self.ptr_offset(st, p)?;
+        for b in self.flat_candidates(st, p).into_iter().rev() {
+            let Ok(bty) = self.ptr_ty(st, &b) else { continue };
+            if matches!(bty.kind(), ty::Adt(d, _) if d.is_union() || d.is_enum()) || self.uniform_leaf(bty) != Some(leaf) {
+                continue;
+            }
+            let n = self.leaf_count(bty);
+            let Some(off_b) = self.ptr_offset(st, &b) else { continue };
+            if off_p < off_b || off_p - off_b + k > n {
+                continue;
+            }
+            let off = off_p - off_b;
+            let mut elems: Vec<Ty<'tcx>> = vec![leaf; off];
+            elems.push(want);
+            elems.extend(std::iter::repeat(leaf).take(n - off - k));
+            let tup = Ty::new_tup(self.tcx, &elems);
+            let mut q = b.clone();
+            q.segs.push(Seg { view: Some(tup), path: vec![PE::F(off)] });
+            return Some(q);
+        }
+        None
+    }
+
+    /// A pointer equal to `p` whose last step is an index into an array (or array view) of the pointee type.
+    fn as_elem_ptr(&self, st: &State<'tcx>, p: &Ptr<'tcx>) -> R<Ptr<'tcx>> {
+        let pointee = self.ptr_ty(st, p)?;
+        let candidates = self.flat_candidates(st, p);
         let k = self.leaf_count(pointee);
         let leaf = self.uniform_leaf(pointee).ok_or("offset: mixed pointee")?;
         if k == 0 {
@@ -722,6 +766,16 @@ impl<'tcx> Cx<'tcx> {
             return Ok(q);
         }
         Err(format!("offset of a pointer to {:?} that is not inside a uniform object", pointee))
+    }
+
+    /// (size, alignment) in bytes of a type without parameters
+    fn concrete_layout(&self, t: Ty<'tcx>) -> Option<(u64, u64)> {
+        use rustc_middle::ty::TypeVisitableExt;
+        if t.has_non_region_param() {
+            return None;
+        }
+        let l = self.tcx.layout_of(self.tenv.as_query_input(t)).ok()?;
+        Some((l.size.bytes(), l.align.abi.bytes()))
     }
 
     /// Size (`size`) or alignment of a type all of whose scalar leaves have the same type L, as a term over L: `size_leaves(n, L)` /
@@ -1127,7 +1181,7 @@ impl<'tcx> Cx<'tcx> {
             st.cells.push(Cell { ty: lty, v: V::Undef, name: None });
             locals.push(st.cells.len() - 1);
         }
-        st.frames.push(Frame { visits: vec![], inst, body, locals: locals.clone(), bb: mir::START_BLOCK, ret_to: None });
+        st.frames.push(Frame { visits: vec![], inst, body, locals: locals.clone(), bb: mir::START_BLOCK, skip: 0, ret_to: None });
         let r: R<V<'tcx>> = (|| {
             for stmt in &body.basic_blocks[mir::START_BLOCK].statements {
                 if let StatementKind::Assign(b) = &stmt.kind {
@@ -1400,6 +1454,20 @@ impl<'tcx> Cx<'tcx> {
             if let Some(r) = Self::layout_cmp(op, ta, tb) {
                 return V::Int(r as u128);
             }
+            // `size_of::<Matrix4<S>>() / size_of::<S>()`
+            if matches!(op, Div) {
+                if let (terms::Term::App(f, x), terms::Term::App(g, y)) = (terms::get(ta), terms::get(tb)) {
+                    if f == "size_leaves" && g == "size_leaves" && x.len() == 2 && y.len() == 2 && x[1] == y[1] {
+                        if let (terms::Term::CInt(m), terms::Term::CInt(n)) = (terms::get(x[0]), terms::get(y[0])) {
+                            if let (Ok(m), Ok(n)) = (m.parse::<u128>(), n.parse::<u128>()) {
+                                if n != 0 && m % n == 0 {
+                                    return V::Int(m / n);
+                                }
+                            }
+                        }
+                    }
+                }
+            }
         }
         let name = match op {
             Add | AddUnchecked | AddWithOverflow => "add",
@@ -1627,7 +1695,7 @@ impl<'tcx> Cx<'tcx> {
                             self.flatten(&v, sty, &mut out);
                             out.into_iter().next().ok_or_else(|| "empty wrapper".to_string())
                         }
-                        (V::Sym(t), _) => Ok(V::Sym(app("transmute", vec![t]))),
+                        (V::Sym(t), _) => Ok(V::Sym(app("transmute", vec![t, cstr(&format!("{:?}->{:?}", sty, ty))]))),
                         // by-value reinterpretation between aggregates with the same leaves
                         (v @ (V::Agg(_) | V::Undef), _) if self.field_tys(sty).is_some() && self.field_tys(ty).is_some() => self.review(&v, sty, ty),
                         (v, _) => Err(format!("transmute of {:?} to {:?}", v, ty)),
@@ -1639,7 +1707,7 @@ impl<'tcx> Cx<'tcx> {
                             let wide = if ssigned { Self::sext(sb, x) as u128 } else { x };
                             Ok(V::Int(Self::trunc(db, wide)))
                         }
-                        other => Ok(V::Sym(app("int_cast", vec![self.to_term(st, &other)]))),
+                        other => Ok(V::Sym(app("int_cast", vec![self.to_term(st, &other), cstr(&format!("{:?}->{:?}", sty, ty))]))),
                     },
                     CastKind::IntToFloat => match v {
                         V::Int(x) => {
@@ -1649,17 +1717,17 @@ impl<'tcx> Cx<'tcx> {
                             let f = if w == 32 { (f as f32) as f64 } else { f };
                             Ok(V::Sym(cfloat(f.to_bits(), w)))
                         }
-                        other => Ok(V::Sym(app("int_to_float", vec![self.to_term(st, &other)]))),
+                        other => Ok(V::Sym(app("int_to_float", vec![self.to_term(st, &other), cstr(&format!("{:?}->{:?}", sty, ty))]))),
                     },
                     CastKind::FloatToFloat => {
                         let t = self.to_term(st, &v);
                         let w = if matches!(ty.kind(), ty::Float(ty::FloatTy::F32)) { 32 } else { 64 };
                         match terms::as_float(t) {
                             Some((f, _)) => Ok(V::Sym(cfloat((if w == 32 { (f as f32) as f64 } else { f }).to_bits(), w))),
-                            None => Ok(V::Sym(app("float_cast", vec![t]))),
+                            None => Ok(V::Sym(app("float_cast", vec![t, cstr(&format!("{:?}->{:?}", sty, ty))]))),
                         }
                     }
-                    CastKind::FloatToInt => Ok(V::Sym(app("float_to_int", vec![self.to_term(st, &v)]))),
+                    CastKind::FloatToInt => Ok(V::Sym(app("float_to_int", vec![self.to_term(st, &v), cstr(&format!("{:?}->{:?}", sty, ty))]))),
                     CastKind::PointerCoercion(..) => {
                         // a capture-free closure coerced to a `fn` pointer (`const GET: [fn(&P) -> S; 3] = [|p| p.x, ..]`): the
                         // pointer value is the closure itself
@@ -1828,6 +1896,7 @@ impl<'tcx> Cx<'tcx> {
             let mut f = top.clone();
             f.ret_to = None;
             f.bb = bb;
+            f.skip = 0;
             sub.frames.push(f);
             sub.decided.push((t, val));
             if let Some((x, c, pol)) = self.discr_fact(t) {
@@ -1884,7 +1953,9 @@ impl<'tcx> Cx<'tcx> {
     }
 
     fn goto(&self, st: &mut State<'tcx>, bb: BasicBlock) {
-        st.frames.last_mut().unwrap().bb = bb;
+        let f = st.frames.last_mut().unwrap();
+        f.bb = bb;
+        f.skip = 0;
     }
     fn span_str(&self, sp: Span) -> String {
         format!("{:?}", sp)
@@ -1937,7 +2008,9 @@ impl<'tcx> Cx<'tcx> {
                     f.visits = vec![0; f.body.basic_blocks.len()];
                 }
                 let i = f.bb.as_usize();
-                f.visits[i] = f.visits[i].saturating_add(1);
+                if f.skip == 0 {
+                    f.visits[i] = f.visits[i].saturating_add(1);
+                }
                 if f.visits[i] as usize > bound {
                     self.stats.borrow_mut().leaves += 1;
                     return Outcome::Cut(format!("loop bound {} exceeded", bound));
@@ -1945,11 +2018,49 @@ impl<'tcx> Cx<'tcx> {
             }
             let fr = st.frames.last().unwrap().clone();
             let data = &fr.body.basic_blocks[fr.bb];
-            for stmt in &data.statements {
+            for (si, stmt) in data.statements.iter().enumerate() {
+                if si < fr.skip {
+                    continue;
+                }
                 terms::CUR_SPAN.with(|s| s.set(Some(stmt.source_info.span)));
                 match &stmt.kind {
                     StatementKind::Assign(b) => {
                         let (pl, rv) = &**b;
+                        // `flag as usize` of an undecided flag (an index into a two-entry table of results): the two values are
+                        // two paths, exactly as if the code had branched on the flag
+                        if let Rvalue::Cast(CastKind::IntToInt, op, _) = rv {
+                            if op.ty(fr.body, self.tcx).is_bool() {
+                                if let Ok(V::Sym(t)) = self.eval_operand(&mut st, op) {
+                                    let known = st.decided.iter().find(|(d, _)| *d == t).map(|(_, v)| *v);
+                                    let p = match self.eval_place(&mut st, pl) {
+                                        Ok(p) => p,
+                                        Err(e) => return self.top(e, stmt.source_info.span),
+                                    };
+                                    if let Some(v) = known {
+                                        if let Err(e) = self.write(&mut st, &p, V::Int(v)) {
+                                            return self.top(e, stmt.source_info.span);
+                                        }
+                                        continue;
+                                    }
+                                    let mut outs = vec![];
+                                    for val in [1u128, 0u128] {
+                                        let mut s1 = st.clone();
+                                        s1.decided.push((t, val));
+                                        if let Some((x, c, pol)) = self.discr_fact(t) {
+                                            if pol == (val == 1) { s1.decided.push((x, c)); } else { s1.excluded.push((x, c)); }
+                                        }
+                                        if let Err(e) = self.write(&mut s1, &p, V::Int(val)) {
+                                            return self.top(e, stmt.source_info.span);
+                                        }
+                                        s1.frames.last_mut().unwrap().skip = si + 1;
+                                        outs.push(self.run_from(&mut s1, base));
+                                    }
+                                    let o_else = outs.pop().unwrap();
+                                    let o_then = outs.pop().unwrap();
+                                    return Outcome::Ite(self.bool_term(t), Box::new(o_then), Box::new(o_else));
+                                }
+                            }
+                        }
                         let v = match self.eval_rvalue(&mut st, rv) {
                             Ok(v) => v,
                             Err(e) => return self.top(e, stmt.source_info.span),
@@ -2798,11 +2909,17 @@ impl<'tcx> Cx<'tcx> {
             if let Some(t) = cargs.get(0).and_then(|a| a.as_type()).and_then(|t| self.layout_term(t, true)) {
                 return Ok(Some(V::Sym(t)));
             }
+            if let Some(n) = cargs.get(0).and_then(|a| a.as_type()).and_then(|t| self.concrete_layout(t)).map(|l| l.0) {
+                return Ok(Some(V::Int(n as u128)));
+            }
             return Ok(Some(V::Sym(app("size_of", vec![cstr(&format!("{:?}", cargs))]))));
         }
         if matches!(&pretty[..], "std::intrinsics::align_of" | "core::intrinsics::align_of" | "std::mem::align_of" | "core::mem::align_of") {
             if let Some(t) = cargs.get(0).and_then(|a| a.as_type()).and_then(|t| self.layout_term(t, false)) {
                 return Ok(Some(V::Sym(t)));
+            }
+            if let Some(n) = cargs.get(0).and_then(|a| a.as_type()).and_then(|t| self.concrete_layout(t)).map(|l| l.1) {
+                return Ok(Some(V::Int(n as u128)));
             }
         }
         // validity assertions of `assume_init` / `zeroed` / `uninitialized`: about the type, not about values
@@ -3149,7 +3266,7 @@ impl<'tcx> Cx<'tcx> {
                     }
                 }
                 self.dump(inst, body);
-                st.frames.push(Frame { visits: vec![], inst, body, locals, bb: mir::START_BLOCK, ret_to: Some((dest, target)) });
+                st.frames.push(Frame { visits: vec![], inst, body, locals, bb: mir::START_BLOCK, skip: 0, ret_to: Some((dest, target)) });
                 return Ok(None);
             }
         }
@@ -3584,7 +3701,7 @@ impl<'tcx> Cx<'tcx> {
         for (i, a) in argv.iter().enumerate() {
             st.cells[locals[i + 1]].v = a.clone();
         }
-        st.frames.push(Frame { visits: vec![], inst, body, locals, bb: mir::START_BLOCK, ret_to: Some((dest, target)) });
+        st.frames.push(Frame { visits: vec![], inst, body, locals, bb: mir::START_BLOCK, skip: 0, ret_to: Some((dest, target)) });
         Ok(())
     }
 
@@ -3651,7 +3768,7 @@ impl<'tcx> Cx<'tcx> {
             } else {
                 return Err(format!("callable with {} args", body.arg_count));
             }
-            s2.frames.push(Frame { visits: vec![], inst, body, locals, bb: mir::START_BLOCK, ret_to: None });
+            s2.frames.push(Frame { visits: vec![], inst, body, locals, bb: mir::START_BLOCK, skip: 0, ret_to: None });
             let o = self.run(s2);
             Ok(format!("{{\"callable\":{},\"item_ty\":{},\"acc\":{},\"item\":{},\"out\":{}}}", jstr(&format!("{:?}", fty)), jstr(&format!("{:?}", item_ty)), jacc, jitem, self.jout(&o, &[])))
         })();
@@ -3832,7 +3949,7 @@ pub fn summarise_root<'tcx>(tcx: TyCtxt<'tcx>, did: DefId) -> String {
         argdesc.push(format!("{{\"name\":{},\"ty\":{},\"v\":{}}}", jstr(&name), jstr(&format!("{:?}", ty)), cx.jval(&st, &v, ty)));
         st.cells[locals[i]].v = v;
     }
-    st.frames.push(Frame { visits: vec![], inst, body, locals, bb: mir::START_BLOCK, ret_to: None });
+    st.frames.push(Frame { visits: vec![], inst, body, locals, bb: mir::START_BLOCK, skip: 0, ret_to: None });
     let t0 = std::time::Instant::now();
     let o = cx.run(st);
     let out = cx.jout(&o, &post);
